@@ -12,7 +12,7 @@ from __future__ import annotations
 from ..ref import canon
 from ..snap import genotype_snapshot
 from ..spec import features
-from ..world import SynthWorld, render_value
+from ..world import SynthWorld, make_world, render_value
 
 ID = "C06"
 LEVEL = "exploration"
@@ -47,7 +47,7 @@ def subtree_canons(v, ref, out):
     n = ref.cls_of(v)
     if n is not None:
         for fn, _ in ref.cls[n]["fields"]:
-            subtree_canons(getattr(v, fn, None), ref, out)
+            subtree_canons(ref.field(v, n, fn), ref, out)
 
 
 def related(c, p1, t, donors, ref):
@@ -73,8 +73,8 @@ def related(c, p1, t, donors, ref):
     n, m = ref.cls_of(c), ref.cls_of(p1)
     if n is None or n != m:
         return False
-    diffs = [(getattr(c, fn, None), getattr(p1, fn, None), ft) for fn, ft in ref.cls[n]["fields"]
-             if canon(getattr(c, fn, None), ref) != canon(getattr(p1, fn, None), ref)]
+    diffs = [(ref.field(c, n, fn), ref.field(p1, n, fn), ft) for fn, ft in ref.cls[n]["fields"]
+             if canon(ref.field(c, n, fn), ref) != canon(ref.field(p1, n, fn), ref)]
     return len(diffs) == 1 and related(diffs[0][0], diffs[0][1], diffs[0][2], donors, ref)
 
 
@@ -187,9 +187,16 @@ def step_stratum(ctx, w, kind):
                     return
 
 
+def directed(tier):
+    """the shipped grammars and the test-suite hierarchies (real classes) under seeded configurations"""
+    from ..world import corpus_directed
+
+    return corpus_directed(tier, per_spec_quick=3, per_spec_thorough=12)
+
+
 def run(ctx):
     H = ctx.H
-    w = SynthWorld(ctx, feat=FEAT)
+    w = make_world(ctx, FEAT)
     try:
         ctx.sample = w.describe()
         if not w.extract().ok:
